@@ -1,7 +1,7 @@
 """Sidecar: contracts on the real functions of /repo, keyed by file::qualname.  Nothing here edits /repo."""
 MODULES=['bits_reg']
 
-FIX_COMMITS=[]
+FIX_COMMITS=['052e08e','9c79cb1']
 
 PROPERTIES={
  'C04': dict(level='proof',
@@ -12,4 +12,9 @@ PROPERTIES={
    trusted_base=["module-level tables _upper/_lower: verified by complete concrete execution of the defining loop against 2^i-1 / -2^(i-1) (1024 entries each)"],
    assumptions=["the pypy 'mamba' Bits implementation is not in use (bits_import falls back to PythonBits on CPython)",
                 "operands are Bits instances or int/bool; floats and arbitrary objects with __int__ are outside the statement"]),
+ 'C05': dict(level='proof',
+   claim="Proof, for every width, value, index and slice bound (symbolic, valid and invalid, int or Bits bounds), that Bits.__getitem__/__setitem__ read/replace exactly bits lo..hi-1 (closed form: old - field*2^lo + new*2^lo, nbits unchanged, value stays in range) or raise IndexError / an error as the statement demands, and that concat (arity<=5), trunc, zext, sext, reduce_and/or/xor meet their bit-level definitions. clog2 uses floating point and is checked by a bounded stand-in (labelled bounded, not counted as proved).",
+   note="Trusted: as C04, plus the unfolding axiom of the spec function parity (its definition) used in reduce_xor's loop invariant. concat is proved per arity 0..5 (loop unrolled), values/widths symbolic. clog2: bounded stand-in over N<=2^16 and 2^k+d (k<=1100,|d|<=2).",
+   extra=['contracts.bits_reg:extra_checks_c05'],
+   assumptions=["slice bounds are None, int or Bits; the slice step is None or int"]),
 }
